@@ -14,8 +14,8 @@ struct url {
 };
 /* type invariant of an ada::url in the string model: every string within capacity and NUL-terminated */
 #define STR_SHAPE(s) ((s).n <= STR_CAP && (s).d[(s).n] == 0)
-#define URL_SHAPE(u) ((u)->base.type >= 0 && (u)->base.type <= 6 && (u)->base.host_type >= 0 && (u)->base.host_type <= 2 && STR_SHAPE((u)->host.v) && STR_SHAPE((u)->path) && \
-  STR_SHAPE((u)->query.v) && STR_SHAPE((u)->hash.v) && STR_SHAPE((u)->username) && STR_SHAPE((u)->password) && STR_SHAPE((u)->non_special_scheme))
+#define URL_SHAPE(u) ((u)->base.type >= 0 && (u)->base.type <= 6 && (u)->base.host_type >= 0 && (u)->base.host_type <= 2 && (!(u)->host.has || STR_SHAPE((u)->host.v)) && STR_SHAPE((u)->path) && \
+  (!(u)->query.has || STR_SHAPE((u)->query.v)) && (!(u)->hash.has || STR_SHAPE((u)->hash.v)) && STR_SHAPE((u)->username) && STR_SHAPE((u)->password) && STR_SHAPE((u)->non_special_scheme))
 /* C19 record invariant of ada::url that the setters must preserve: "A URL cannot have a username/password/port if its host is
  * null or the empty string, or its scheme is file" */
 #define URL_REC(u) (!(!(u)->host.has || (u)->host.v.n == 0 || (u)->base.type == 6 /* FILE, checked against the dumped enumerator in the harness */) || \
